@@ -124,7 +124,7 @@ let parse_op (toks : string list) : (string * op option * string) =
   | _ -> failwith ("bad op: " ^ S.concat " " toks)
 
 let kf_of (o : op) : string =
-  if kf_C13_1 o then "kf_C13_1" else if kf_C13_2 o then "kf_C13_2" else if kf_C13_3 o then "kf_C13_3" else "none"
+  if kf_C13_2 o then "kf_C13_2" else if kf_C13_3 o then "kf_C13_3" else "none"
 
 let run (path : string) =
   let lines = read_lines path in
